@@ -904,6 +904,13 @@ func checkHistory(c HistCase, s *rt.Section) (*rt.Failure, int, int) {
 			if o.pi != nil {
 				return s.NewFailure("no-panic", o.pi.Sig(), c, where+" panics: "+o.pi.Value+"\n"+o.pi.Stack, "a value or an error"), macroSteps, macroEffective
 			}
+			// a macro counts for the text it stands in: when the parser gave the macro back with the rest (it sits in a
+			// construct that breaks off), the consumed text has no macro and obeys the VM's own switches
+			if o.accepted && macro && o.offset >= 0 && o.offset <= len(st.Src) && !hasMacro(st.Src[:o.offset]) {
+				macro = false
+				macroSteps--
+				s.Class("macro-only-in-the-rest-text")
+			}
 			if o.accepted {
 				if !macro {
 					// the text of this step was compiled with the VM's own flags, whatever ran before
@@ -981,7 +988,7 @@ func drawMacro(t *rapid.T, cfg vmx.Cfg) (macro, use string) {
 // drawMacroSource places one or more macros somewhere in a text that then uses the families.
 func drawMacroSource(t *rapid.T, cfg vmx.Cfg) string {
 	m, use := drawMacro(t, cfg)
-	switch rapid.IntRange(0, 12).Draw(t, "macroPlace") {
+	switch rapid.IntRange(0, 13).Draw(t, "macroPlace") {
 	case 0, 1, 2:
 		return m + use
 	case 3:
@@ -1003,6 +1010,9 @@ func drawMacroSource(t *rapid.T, cfg vmx.Cfg) string {
 		return use + "\n" + m + use + "\n" + strings.Replace(m, "true", "false", 1) + use
 	case 11:
 		return m + use + " trailing text " + use
+	case 12:
+		// the macro sits in a template (or dict, or call) that breaks off: it is given back with the rest text
+		return use + rapid.SampledFrom([]string{" + `{% ", "; `{% ", " + `a{ ", "\n`{%\n", " + f1(`{% "}).Draw(t, "brokenOpen") + strings.TrimSuffix(m, "\n") + "\n1 %}"
 	default:
 		return m + "func g() { " + use + " }\n&c = " + use + "\nx = [" + use + "]\ng() + c"
 	}
